@@ -447,6 +447,10 @@ def _r4_order(P: Project, R: Report) -> None:
                 from ..model import local_values as _lv
 
                 defs_ = [v_ for v_ in _lv(f.node).get(c.func.value.id, []) if v_ is not None]
+                # (`waiter = _ABSENT` / `= None` before the look-up is "no entry", not another kind of receiver)
+                local_names_ = {x.id for x in walk_local(f.node) if isinstance(x, ast.Name) and isinstance(x.ctx, ast.Store)} | set(f.params())
+                entries_ = [v_ for v_ in defs_ if not ((isinstance(v_, ast.Constant) and v_.value is None) or (isinstance(v_, ast.Name) and v_.id not in local_names_))]
+                defs_ = entries_ or defs_
                 if defs_ and all(any(isinstance(x, ast.Attribute) and isinstance(x.value, ast.Name) and x.value.id == "self" for x in ast.walk(v_)) and
                                  (isinstance(v_, ast.Subscript) or (isinstance(v_, ast.Call) and isinstance(v_.func, ast.Attribute) and v_.func.attr in ("get", "pop"))) for v_ in defs_):
                     recv = "future"
